@@ -48,6 +48,8 @@ func genC07Case(t *rapid.T) C07Case {
 			spec.SPs[i].SLO = []world.SLOSpec{{Binding: world.BindPost, Location: fmt.Sprintf("https://sp%d.example/slo", i)}}
 		}
 	}
+	// the layout the IdP writes its own timestamps with is its own business: what it accepts from others is xs:dateTime
+	spec.IdP.TimeFormat = rapid.SampledFrom([]string{"", "", "", time.RFC3339, "2006-01-02T15:04:05.000Z", "2006-01-02T15:04:05Z"}).Draw(t, "idptimeformat")
 	c := C07Case{Kind: rapid.SampledFrom([]string{"authn", "authn", "authn", "logout", "attrquery"}).Draw(t, "kind"), BOM: rapid.IntRange(0, 4).Draw(t, "bom") == 0, Chunked: rapid.IntRange(0, 3).Draw(t, "chunked") == 0}
 	s := SSOCase{Spec: spec, Host: rapid.SampledFrom(reqHosts).Draw(t, "host")}
 	// a conformant SP that must sign has a registered certificate
